@@ -181,6 +181,11 @@ def stepLine (st : DState) (line : String) : DState × String :=
     match parseResp v code ops with
     | some r => (st, hx r.serialize)
     | none => (st, "bad-op")
+  | ["respget", v, code, ops] =>
+    match parseResp v code ops with
+    | some r =>
+      (st, s!"st={r.status.num} v={r.version.show} cl={r.getContentLength} ct={r.contentType.show} dep={bool01 r.deprecation} allow=[{",".intercalate (r.getAllow.map Method.show)}] body={showBody r.getBody}")
+    | none => (st, "bad-op")
   | ["respw", v, code, ops, sched] =>
     match parseResp v code ops, parseSched sched with
     | some r, some sc =>
